@@ -108,7 +108,15 @@ def _load(pid):
 def _guarded_check(mod, case, acc, known_keys):
     """Run check_case; known-finding signatures are counted and pass."""
     try:
-        labels = mod.check_case(case)
+        try:
+            labels = mod.check_case(case)
+        except Violation:
+            raise
+        except Exception as e:
+            v = core.as_violation(e)
+            if v is None:
+                raise
+            raise v from None
     except Violation as v:
         sig = mod.classify(case, v)
         if sig in known_keys:
@@ -229,7 +237,15 @@ def replay_file(pid, path, quiet=False):
     with open(path) as f:
         case = casemod.from_jsonable(json.load(f))
     try:
-        mod.check_case(case)
+        try:
+            mod.check_case(case)
+        except Violation:
+            raise
+        except Exception as e:
+            v = core.as_violation(e)
+            if v is None:
+                raise
+            raise v from None
     except Violation as v:
         return True, mod.classify(case, v), str(v)[:1500]
     return False, None, ''
